@@ -6,6 +6,7 @@ package main
 import (
 	"bufio"
 	"bytes"
+	"strings"
 	"sync"
 	"time"
 
@@ -37,6 +38,22 @@ func (r *recorder) WriteFrame(f *codec.Frame) error {
 	r.frames = append(r.frames, f)
 	return nil
 }
+
+// deathCore is the demuxer's log sink: it only notices the message process() logs when it
+// recovers a panic and exits, so a dead converter goroutine is reported at once
+type deathCore struct {
+	died chan struct{}
+	once sync.Once
+}
+
+func (d *deathCore) Enabled(l xlog.Level) bool { return l >= xlog.ErrorLevel }
+func (d *deathCore) Write(e xlog.Entry) error {
+	if strings.Contains(e.Message, "routine panic") {
+		d.once.Do(func() { close(d.died) })
+	}
+	return nil
+}
+func (d *deathCore) Sync() error { return nil }
 
 func rtpPacket(seq uint16, ts uint32, pl []byte) []byte {
 	d := make([]byte, 12+len(pl))
@@ -82,7 +99,8 @@ func runStream(cd int64, clock int, wire [][]byte) Val {
 	}
 	ps, end := sentinels(cd == 1)
 	rec := &recorder{done: make(chan struct{}), end: end}
-	dm, err := rtp.NewDemuxer(vm, am, rec, xlog.New(xlog.NewNopCore()))
+	dc := &deathCore{died: make(chan struct{})}
+	dm, err := rtp.NewDemuxer(vm, am, rec, xlog.New(dc))
 	if err != nil {
 		return L(S("!error"), S(err.Error()))
 	}
@@ -114,7 +132,9 @@ func runStream(cd int64, clock int, wire [][]byte) Val {
 	dead := false
 	select {
 	case <-rec.done:
-	case <-time.After(3 * time.Second):
+	case <-dc.died:
+		dead = true
+	case <-time.After(5 * time.Second):
 		dead = true
 	}
 	rec.mu.Lock()
